@@ -50,9 +50,11 @@ def names_to_abbr(iver):
     return inv
 
 
-def check(ctx, iver, allm, answers):
-    rp = {"iver": iver, "all": allm, "answers": answers}
-    res = inter.ask(iver, allm, answers)
+def check(ctx, iver, allm, answers, spelling=None):
+    if spelling is None:
+        spelling = (len(answers) + (1 if allm else 0)) % 2   # deterministic choice among equal spellings of the version
+    rp = {"iver": iver, "all": allm, "answers": answers, "spelling": spelling}
+    res = inter.ask(iver, allm, answers, spelling=spelling)
     inv = names_to_abbr(iver)
     asked = [[inv.get(n, n), k] for n, k in res["asked"]]
     V = VOCAB[iver[0]]
@@ -139,5 +141,5 @@ def replay(data):
         def violation(self, sig, what, *a, **k):
             self.v.append(sig + ": " + what)
     c = C()
-    got = check(c, r["iver"], r["all"], r["answers"])
+    got = check(c, r["iver"], r["all"], r["answers"], r.get("spelling"))
     return not c.v, "ask_interactively(%s, all=%s) with answers %r -> %r; %s" % (r["iver"], r["all"], r["answers"], got[:3], "; ".join(c.v) or "as the statement demands")
